@@ -22,6 +22,8 @@ CHECKS = {
  "C16": ("exploration", "3.C16", "an independent decoder of meta/bbn/ln/ht/rollback files (written from the documented layouts, no shared code) runs after every step of seeded histories: separators strictly ordered within and across branch pages, leaves partition the key space, every model key in exactly one leaf with the model's bytes (overflow chains complete, hash right), no page used twice; every full bucket holds a page whose label is reachable by its probe sequence exactly once; every reachable node of every stored page equals the reference trie at that position; a page with content is stored xor marked elided in its stored parent; no stale pages", "page labels are accepted in the form the tree writes them (id << 6)"),
  "C17": ("exploration", "3.C17", "before every sync the decoder computes what the durable image references (leaf, overflow, branch and free-list pages, the hash table, live rollback segments); every write / set_len / unlink event of the sync that starts before the meta fsync completed must miss that set, under all worker interleavings the scheduler picks", "events are observed at the hook sites of the guarded build"),
  "C19": ("exploration", "3.C19", "page accounting on the decoder's output after every step: used + free-listed + free-list pages = [1, bump) for ln and bbn, nothing both free and used; reported hash-table occupancy = full buckets = stored pages (0 when empty); fill / overwrite / empty cycles with values flipping between in-leaf and overflow form", "frontier growth over many cycles is additionally bounded in the thorough tier"),
+ "C15": ("exploration", "3.C15", "1-3 reader tasks (sessions with reads and proofs, held across scheduling points) and 1-2 writer tasks (blocking / non-blocking session commits with retries, overlay commits, rollbacks) on one handle under random and PCT schedules; every call is stamped at invocation and return with the simulator's global event counter and the recorded history is checked for linearizability (Wing-Gong search with memoisation) against a sequential model: session snapshots equal the state at their start, no commit or rollback takes effect while any session is alive, exactly the changesets whose base is current win, non-blocking commits are handed back only when something else holds the lock, rollbacks within the retained window succeed; deadlocks and livelocks are caught by the scheduler; the final store (also after reopen) equals the fold of the winning changesets", "atomics are not scheduling points; histories are kept below 60 events so the search stays tractable"),
+ "C20": ("exploration", "3.C20", "2-3 tasks race Nomt::open on one directory (existing store, empty directory, missing directory) at seeded points; winners hold the handle, may commit (optionally with an injected failing commit, i.e. poisoned) and drop: never two live handles, a refused open issues no mutating file operation, no I/O event appears after a handle's drop returned, and the directory opens again with the committed state. Handle death by process kill is covered by the sequential scripted scenario sim/c20-procs (real crate, real io_uring, two processes), reported as non-simulated", "caller-task panic is not simulated (shuttle cannot continue after a task panic)"),
 }
 
 NA = [
@@ -29,8 +31,6 @@ NA = [
  ("C18", "totality of pure verifier functions over arbitrary inputs: nothing for a simulator to schedule or fault (DESIGN §4)"),
 ]
 PENDING = {
- "C15": "not claimed yet: the check for this property is still being built (see DESIGN.md §3); it is applicable to this technique",
- "C20": "not claimed yet: the check for this property is still being built (see DESIGN.md §3); it is applicable to this technique",
 }
 
 def main():
